@@ -89,7 +89,7 @@ class Lexer:
 
     # The end of a keyword. Every character from U+0080 up can continue a name,
     # word character or not, so a word boundary alone does not end a keyword.
-    keyword_end_pattern = r"\b(?![\u0080-\U0010FFFF])"
+    keyword_end_pattern = r"\b(?![^\x00-\x7f])"
 
     # `not` or !
     logical_not_pattern = rf"(?:not{keyword_end_pattern})|!"
